@@ -111,13 +111,8 @@ def pre : List Step :=
    ⟨.benign, "modules.items", .none⟩,
    ⟨.loopBegin, "modules.items()", .none⟩,
    ⟨.benign, "header.format", .none⟩,
-<<<<<<< HEAD
-   ⟨.mayRaise, "<expr>.encode", .none⟩,
-   ⟨.mayRaise, "<expr>.encode", .none⟩,
-=======
    ⟨.encodeCheck, "custom_file_header or header.format(filename)", .perModule⟩,
    ⟨.encodeCheck, "body", .perModule⟩,
->>>>>>> wip-modules
    ⟨.loopEnd, "", .none⟩,
    ⟨.benign, "modules.items", .none⟩]
 
